@@ -202,6 +202,10 @@ func ClockFine() time.Time {
 	return t
 }
 
+// ClockSpan keeps every later clock reading of the path within n seconds of
+// the first one (natively a no-op: the vector already satisfies it).
+func ClockSpan(n int) {}
+
 // Instant returns an arbitrary instant in the range Clock draws from; it does
 // not move the clock.
 func Instant(name string) time.Time {
@@ -227,6 +231,15 @@ func WithFakeClock(f func()) {
 	panicked := false
 	synctest.Test(curT, func(*testing.T) {
 		inBubble = true
+		// The bubble's clock starts in the year 2000. Jump to the first instant
+		// of the vector now, while no background goroutine (a cache sweeper
+		// waking once a minute, say) exists that would have to be woken millions
+		// of times on the way.
+		if v, ok := vec["clock#0"]; ok {
+			if d := time.Until(time.Unix(int64(v)-62135596800, 0)); d > 0 {
+				time.Sleep(d)
+			}
+		}
 		defer func() {
 			inBubble = false
 			if r := recover(); r != nil {
